@@ -636,6 +636,7 @@ class _ObserverRun:
     def __init__(self, tape, trace, stats):
         self.tape, self.trace, self.stats = tape, trace, stats
         self.recursed: Optional[str] = None     # first observer that died of unbounded recursion
+        self.partner = None
 
     def _state(self, x, cls):
         b = bytes(x)
@@ -673,6 +674,9 @@ class _ObserverRun:
             if k == 3:
                 m == m  # noqa: B015
                 m == cls()  # noqa: B015
+                if self.partner is not None:
+                    m == self.partner  # noqa: B015
+                    self.partner == m  # noqa: B015
                 return "=="
             if k == 4:
                 bool(m)
@@ -790,6 +794,7 @@ class _ObserverRun:
             return False, 0, 0.0
         recipe = tape.log[start:]
         _, twin, _ = build_message(Tape.replay(recipe))
+        _, self.partner, _ = build_message(Tape.replay(recipe))   # right-hand operand of ==; judged at the end too
         trace.append(f"{cls.__name__} {how}: {short(twin, 200)}")
         steps = 0
         # ---- observers on m; twin is never touched until the end
@@ -801,6 +806,8 @@ class _ObserverRun:
             steps += 1
         trace.append("observers: " + ", ".join(obs_log))
         self._q1(m, twin, cls, "C14.Q1", f"after observers [{', '.join(obs_log)}]")
+        # == must be pure for BOTH operands: the message it was compared with is judged as well
+        self._q1(self.partner, twin, cls, "C14.Q1", f"the right-hand operand of == after observers [{', '.join(obs_log)}]")
         # ---- copies, in drawn order, possibly chained
         src = m
         copies = []
